@@ -23,21 +23,21 @@ import ast
 
 from harness.common import TranslateError, ast_digest, src_text
 
-CATCH_ALL = {'OSError', 'Exception', 'BaseException', 'IOError', 'EnvironmentError'}
+# ------------------------------------------------------------------------------------------- __exit__ -> xstmt
+# Abstract values of SM/AtomicExit.v.  The translator only transliterates; the symbolic execution (which operation
+# follows which result, what a `finally` does, whether an exception is swallowed) is done by `exit_tree` in the kernel.
+SLOTS = {'self.temp': 0, 'self._temp_name': 1, 'self.filename': 2}
+CLASS_ALL = {'BaseException', 'Exception'}
+CLASS_OSERROR = {'OSError', 'IOError', 'EnvironmentError'}
+CLASS_NOENT = {'FileNotFoundError'}
+# classes that match neither the injected OSError(EIO), nor FileNotFoundError, nor an AttributeError / explicit raise
+CLASS_NEVER = {'FileExistsError', 'PermissionError', 'IsADirectoryError', 'NotADirectoryError', 'InterruptedError',
+               'BlockingIOError', 'TimeoutError', 'KeyError', 'IndexError', 'ValueError', 'TypeError', 'KeyboardInterrupt',
+               'StopIteration', 'UnicodeError', 'ZeroDivisionError'}
 
 
-# ------------------------------------------------------------------------------------------- symbolic __exit__
-class _Env:
-    def __init__(self, exc: bool, fault: str | None) -> None:
-        self.exc = exc
-        self.fault = fault
-        self.fired = False
-        self.ops: list[str] = []
-        # abstract values: 'TEMP' (the open handle), 'TNAME' (temp path), 'DEST', 'EXC' (exc_type), True/False/None
-        self.vars: dict[str, object] = {'self.temp': 'TEMP', 'self._temp_name': 'TNAME', 'self.filename': 'DEST',
-                                        'exc_type': 'EXC' if exc else None, 'exc_value': 'EXC' if exc else None,
-                                        'tback': 'EXC' if exc else None}
-        self.raising = exc  # informational
+# classes an explicit `raise` may name: none of them is (a base class of) anything in the handler tables above
+SAFE_RAISE = {'RuntimeError', 'AssertionError', 'NotImplementedError'}
 
 
 def _key(node: ast.AST) -> str | None:
@@ -48,135 +48,194 @@ def _key(node: ast.AST) -> str | None:
     return None
 
 
-def _val(node: ast.AST, env: _Env, where: str):
-    if isinstance(node, ast.Constant) and (node.value is None or isinstance(node.value, bool)):
-        return node.value
-    k = _key(node)
-    if k is not None and k in env.vars:
-        return env.vars[k]
-    raise TranslateError(f'{where}: unsupported value `{ast.unparse(node)}` (line {node.lineno})')
+class _ExitTr:
+    def __init__(self, fn: ast.FunctionDef) -> None:
+        params = [a.arg for a in fn.args.args]
+        if len(params) != 4 or fn.args.vararg or fn.args.kwarg or fn.args.kwonlyargs:
+            raise TranslateError('AtomicWriter.__exit__: expected (self, exc_type, exc_value, tback)')
+        self.where = 'AtomicWriter.__exit__'
+        self.slots = dict(SLOTS)
+        for k, name in enumerate(params[1:]):
+            self.slots[name] = 3 + k
+        self.next = 6
+        self.names = {v: k for k, v in self.slots.items()}
 
+    def slot(self, key: str, create: bool, node: ast.AST) -> int:
+        if key not in self.slots:
+            if not create:
+                raise TranslateError(f'{self.where}: `{key}` is read but never assigned before (line {node.lineno})')
+            self.slots[key] = self.next
+            self.names[self.next] = key
+            self.next += 1
+        return self.slots[key]
 
-def _test(node: ast.AST, env: _Env, where: str) -> bool:
-    if isinstance(node, ast.Compare) and len(node.ops) == 1 and isinstance(node.ops[0], (ast.Is, ast.IsNot)):
-        a = _val(node.left, env, where)
-        b = _val(node.comparators[0], env, where)
-        if b is not None and a is not None:
-            raise TranslateError(f'{where}: identity test between two non-None values `{ast.unparse(node)}`')
-        same = (a is None) == (b is None)
-        return same if isinstance(node.ops[0], ast.Is) else not same
-    if isinstance(node, ast.UnaryOp) and isinstance(node.op, ast.Not):
-        return not _test(node.operand, env, where)
-    if isinstance(node, ast.BoolOp):
-        vals = [_test(v, env, where) for v in node.values]
-        return all(vals) if isinstance(node.op, ast.And) else any(vals)
-    v = _val(node, env, where)
-    if isinstance(v, bool):
-        return v
-    if v is None:
-        return False
-    if v in ('TEMP', 'TNAME', 'DEST', 'EXC'):
-        return True
-    raise TranslateError(f'{where}: unsupported test `{ast.unparse(node)}`')
+    def fresh(self) -> int:
+        n = self.next
+        self.names[n] = f'<tmp{n}>'
+        self.next += 1
+        return n
 
+    def expr(self, node: ast.AST) -> str:
+        if isinstance(node, ast.Constant) and (node.value is None or isinstance(node.value, bool)):
+            return '(EC %s)' % {None: 'VNone', True: 'VTrue', False: 'VFalse'}[node.value]
+        k = _key(node)
+        if k is not None:
+            return f'(EV {self.slot(k, False, node)})'
+        raise TranslateError(f'{self.where}: unsupported value `{ast.unparse(node)}` (line {node.lineno})')
 
-def _classify_call(call: ast.Call, env: _Env, where: str) -> str:
-    f = call.func
-    if isinstance(f, ast.Attribute):
-        recv = f.value
-        # os.replace(tmp, dest) / os.unlink(tmp) / os.remove(tmp)
-        if isinstance(recv, ast.Name) and recv.id in ('os', '_os'):
-            args = [_val(a, env, where) for a in call.args]
-            if f.attr in ('replace', 'rename') and args == ['TNAME', 'DEST']:
-                return 'REPLACE'
-            if f.attr in ('unlink', 'remove') and args == ['TNAME']:
-                return 'UNLINK'
-            raise TranslateError(f'{where}: unsupported os call `{ast.unparse(call)}`')
-        rv = _val(recv, env, where)
-        if rv == 'TEMP' and f.attr in ('__exit__', 'close'):
-            return 'CLOSE'
-        if rv == 'TNAME' and f.attr == 'unlink':
-            return 'UNLINK'
-        if rv == 'TNAME' and f.attr in ('replace', 'rename') and len(call.args) == 1 \
-                and _val(call.args[0], env, where) == 'DEST':
-            return 'REPLACE'
-    raise TranslateError(f'{where}: unsupported call `{ast.unparse(call)}` (line {call.lineno})')
-
-
-def _exec(stmts: list[ast.stmt], env: _Env, where: str) -> str:
-    """Returns 'normal' | 'return' | 'raise'."""
-    for st in stmts:
-        out = _exec1(st, env, where)
-        if out != 'normal':
+    def test(self, node: ast.AST) -> str:
+        if isinstance(node, ast.Compare) and len(node.ops) == 1 and isinstance(node.ops[0], (ast.Is, ast.IsNot)):
+            c = 'TIs' if isinstance(node.ops[0], ast.Is) else 'TIsNot'
+            return f'({c} {self.expr(node.left)} {self.expr(node.comparators[0])})'
+        if isinstance(node, ast.UnaryOp) and isinstance(node.op, ast.Not):
+            return f'(TNot {self.test(node.operand)})'
+        if isinstance(node, ast.BoolOp):
+            c = 'TAnd' if isinstance(node.op, ast.And) else 'TOr'
+            out = self.test(node.values[-1])
+            for v in reversed(node.values[:-1]):
+                out = f'({c} {self.test(v)} {out})'
             return out
-    return 'normal'
+        if isinstance(node, (ast.Name, ast.Attribute, ast.Constant)):
+            return f'(TTruth {self.expr(node)})'
+        raise TranslateError(f'{self.where}: unsupported test `{ast.unparse(node)}` (line {node.lineno})')
 
+    def call(self, call: ast.Call) -> str:
+        f = call.func
+        bad = TranslateError(f'{self.where}: unsupported call `{ast.unparse(call)}` (line {call.lineno})')
+        if not isinstance(f, ast.Attribute):
+            raise bad
+        kw = {k.arg: k.value for k in call.keywords}
+        if isinstance(f.value, ast.Name) and f.value.id in ('os', '_os'):
+            if kw:
+                raise bad
+            if f.attr in ('replace', 'rename') and len(call.args) == 2:
+                return f'(SCall MReplace {self.expr(call.args[0])} [{self.expr(call.args[1])}] false)'
+            if f.attr in ('unlink', 'remove') and len(call.args) == 1:
+                return f'(SCall MUnlink {self.expr(call.args[0])} [] false)'
+            raise bad
+        recv = self.expr(f.value)
+        if f.attr == '__exit__' and len(call.args) == 3 and not kw:
+            for a in call.args:
+                self.expr(a)          # must be known values; a file object's __exit__ closes whatever they are
+            return f'(SCall MClose {recv} [] false)'
+        if f.attr == 'close' and not call.args and not kw:
+            return f'(SCall MClose {recv} [] false)'
+        if f.attr == 'unlink' and not call.args and set(kw) <= {'missing_ok'}:
+            mo = kw.get('missing_ok')
+            if mo is not None and not (isinstance(mo, ast.Constant) and isinstance(mo.value, bool)):
+                raise bad
+            return f'(SCall MUnlink {recv} [] {"true" if mo is not None and mo.value else "false"})'
+        if f.attr in ('replace', 'rename') and len(call.args) == 1 and not kw:
+            return f'(SCall MReplace {recv} [{self.expr(call.args[0])}] false)'
+        raise bad
 
-def _exec1(st: ast.stmt, env: _Env, where: str) -> str:
-    if isinstance(st, ast.Pass) or isinstance(st, ast.Assert):
-        return 'normal'
-    if isinstance(st, ast.Expr):
-        if isinstance(st.value, ast.Constant):
-            return 'normal'
-        if isinstance(st.value, ast.Call):
-            op = _classify_call(st.value, env, where)
-            env.ops.append(op)
-            if env.fault == op and not env.fired:
-                env.fired = True
-                env.ops[-1] = op + '!'
-                return 'raise'
-            return 'normal'
-        raise TranslateError(f'{where}: unsupported expression statement (line {st.lineno})')
-    if isinstance(st, ast.Assign):
-        if len(st.targets) != 1:
-            raise TranslateError(f'{where}: chained assignment (line {st.lineno})')
-        tgt, val = st.targets[0], st.value
+    def classes(self, t: ast.expr | None) -> str:
+        if t is None:
+            return '[KAll]'
+        out = []
+        for e in (t.elts if isinstance(t, ast.Tuple) else [t]):
+            if not isinstance(e, ast.Name):
+                raise TranslateError(f'{self.where}: unsupported exception class `{ast.unparse(e)}`')
+            if e.id in CLASS_ALL:
+                out.append('KAll')
+            elif e.id in CLASS_OSERROR:
+                out.append('KOSError')
+            elif e.id in CLASS_NOENT:
+                out.append('KNoEnt')
+            elif e.id in CLASS_NEVER:
+                out.append('KNever')
+            else:
+                raise TranslateError(f'{self.where}: exception class `{e.id}` is not in the translator\'s table')
+        return '[' + '; '.join(out) + ']'
+
+    def seq(self, stmts: list[str]) -> str:
+        if not stmts:
+            return 'SSkip'
+        out = stmts[-1]
+        for s in reversed(stmts[:-1]):
+            out = f'(SSeq {s} {out})'
+        return out
+
+    def block(self, stmts: list[ast.stmt]) -> str:
+        return self.seq([self.stmt(s) for s in stmts])
+
+    def assign(self, tgt: ast.AST, val: ast.AST, st: ast.stmt) -> str:
         if isinstance(tgt, ast.Tuple):
             if not isinstance(val, ast.Tuple) or len(val.elts) != len(tgt.elts):
-                raise TranslateError(f'{where}: unsupported tuple assignment (line {st.lineno})')
-            vals = [_val(v, env, where) for v in val.elts]
-            for t, v in zip(tgt.elts, vals):
+                raise TranslateError(f'{self.where}: unsupported tuple assignment (line {st.lineno})')
+            # right-hand sides are evaluated first, then the targets are assigned left to right
+            vals = [self.expr(v) for v in val.elts]
+            tmps = [self.fresh() for _ in vals]
+            out = [f'(SAssign {t} {v})' for t, v in zip(tmps, vals)]
+            for t, tmp in zip(tgt.elts, tmps):
                 k = _key(t)
                 if k is None:
-                    raise TranslateError(f'{where}: unsupported assignment target (line {st.lineno})')
-                env.vars[k] = v
-            return 'normal'
+                    raise TranslateError(f'{self.where}: unsupported assignment target (line {st.lineno})')
+                out.append(f'(SAssign {self.slot(k, True, st)} (EV {tmp}))')
+            return self.seq(out)
         k = _key(tgt)
         if k is None:
-            raise TranslateError(f'{where}: unsupported assignment target (line {st.lineno})')
-        env.vars[k] = _val(val, env, where)
-        return 'normal'
-    if isinstance(st, ast.AnnAssign) and st.value is not None:
-        k = _key(st.target)
-        if k is None:
-            raise TranslateError(f'{where}: unsupported assignment target (line {st.lineno})')
-        env.vars[k] = _val(st.value, env, where)
-        return 'normal'
-    if isinstance(st, ast.If):
-        return _exec(st.body if _test(st.test, env, where) else st.orelse, env, where)
-    if isinstance(st, ast.Return):
-        if st.value is not None and not (isinstance(st.value, ast.Constant) and st.value.value in (None, False)):
-            raise TranslateError(f'{where}: __exit__ may swallow the exception (returns `{ast.unparse(st.value)}`)')
-        return 'return'
-    if isinstance(st, ast.Raise):
-        return 'raise'
-    if isinstance(st, ast.Try):
-        out = _exec(st.body, env, where)
-        if out == 'raise':
-            for h in st.handlers:
-                names = _handler_names(h, where)
-                # the injected fault is an OSError that is not FileNotFoundError / FileExistsError
-                if names is None or names & CATCH_ALL:
-                    out = _exec(h.body, env, where)
-                    break
-        elif out == 'normal' and st.orelse:
-            out = _exec(st.orelse, env, where)
-        if st.finalbody:
-            fin = _exec(st.finalbody, env, where)
-            if fin != 'normal':
-                out = fin
-        return out
-    raise TranslateError(f'{where}: unsupported statement `{type(st).__name__}` (line {st.lineno})')
+            raise TranslateError(f'{self.where}: unsupported assignment target (line {st.lineno})')
+        v = self.expr(val)
+        return f'(SAssign {self.slot(k, True, st)} {v})'
+
+    def stmt(self, st: ast.stmt) -> str:
+        if isinstance(st, (ast.Pass, ast.Assert)):
+            return 'SSkip'
+        if isinstance(st, ast.Expr):
+            if isinstance(st.value, ast.Constant):
+                return 'SSkip'
+            if isinstance(st.value, ast.Call):
+                return self.call(st.value)
+            raise TranslateError(f'{self.where}: unsupported expression statement (line {st.lineno})')
+        if isinstance(st, ast.Assign):
+            if len(st.targets) != 1:
+                raise TranslateError(f'{self.where}: chained assignment (line {st.lineno})')
+            return self.assign(st.targets[0], st.value, st)
+        if isinstance(st, ast.AnnAssign):
+            if st.value is None:
+                return 'SSkip'
+            return self.assign(st.target, st.value, st)
+        if isinstance(st, ast.If):
+            t = self.test(st.test)
+            # both branches are translated with the same slot table: a local first assigned in one branch is unbound
+            # (reads give XBad in the kernel) when the other branch was taken
+            return f'(SIf {t} {self.block(st.body)} {self.block(st.orelse)})'
+        if isinstance(st, ast.Return):
+            if st.value is None or (isinstance(st.value, ast.Constant) and st.value.value in (None, False)):
+                return '(SReturn false)'
+            if isinstance(st.value, ast.Constant) and st.value.value is True:
+                return '(SReturn true)'
+            raise TranslateError(f'{self.where}: unsupported return value `{ast.unparse(st.value)}` (line {st.lineno})')
+        if isinstance(st, ast.Raise):
+            if st.exc is None:
+                return '(SRaise true)'
+            # an explicit raise is modelled as "some exception that no OSError/FileNotFoundError handler catches":
+            # only classes that cannot appear in a handler of the translator's tables are accepted
+            e = st.exc.func if isinstance(st.exc, ast.Call) else st.exc
+            if isinstance(e, ast.Name) and e.id in SAFE_RAISE and st.cause is None:
+                return '(SRaise false)'
+            raise TranslateError(f'{self.where}: unsupported raise `{ast.unparse(st)}` (line {st.lineno})')
+        if isinstance(st, ast.Try):
+            hs = 'HNil'
+            for h in reversed(st.handlers):
+                hs = f'(HCons {self.classes(h.type)} {self.block(h.body)} {hs})'
+            return f'(STry {self.block(st.body)} {hs} {self.block(st.orelse)} {self.block(st.finalbody)})'
+        if isinstance(st, ast.With) and len(st.items) == 1 and st.items[0].optional_vars is None:
+            ce = st.items[0].context_expr       # with contextlib.suppress(A, B): body
+            if isinstance(ce, ast.Call) and not ce.keywords and (
+                    (isinstance(ce.func, ast.Name) and ce.func.id == 'suppress') or
+                    (isinstance(ce.func, ast.Attribute) and ce.func.attr == 'suppress'
+                     and isinstance(ce.func.value, ast.Name) and ce.func.value.id == 'contextlib')):
+                ks = self.classes(ast.Tuple(elts=list(ce.args), ctx=ast.Load()))
+                return f'(STry {self.block(st.body)} (HCons {ks} SSkip HNil) SSkip SSkip)'
+        raise TranslateError(f'{self.where}: unsupported statement `{type(st).__name__}` (line {st.lineno})')
+
+
+def _exit_prog(fn: ast.FunctionDef) -> tuple[str, dict]:
+    tr = _ExitTr(fn)
+    prog = tr.block(fn.body)
+    return prog, {str(k): v for k, v in sorted(tr.names.items())}
 
 
 def _handler_names(h: ast.ExceptHandler, where: str) -> set[str] | None:
@@ -190,60 +249,6 @@ def _handler_names(h: ast.ExceptHandler, where: str) -> set[str] | None:
         else:
             raise TranslateError(f'{where}: unsupported exception class `{ast.unparse(t)}`')
     return names
-
-
-def _run_exit(fn: ast.FunctionDef, exc: bool, fault: str | None) -> tuple[list[str], str]:
-    env = _Env(exc, fault)
-    params = [a.arg for a in fn.args.args]
-    if len(params) != 4:
-        raise TranslateError('AtomicWriter.__exit__: expected (self, exc_type, exc_value, tback)')
-    for src, dst in zip(('exc_type', 'exc_value', 'tback'), params[1:]):
-        env.vars[dst] = env.vars[src]
-    out = _exec(fn.body, env, 'AtomicWriter.__exit__')
-    return env.ops, out
-
-
-def _action(ops: list[str], where: str) -> tuple[str, bool]:
-    """ops of a fault-free path -> (action, close_first)."""
-    if ops == ['CLOSE', 'REPLACE']:
-        return 'ACommit', True
-    if ops == ['CLOSE', 'UNLINK']:
-        return 'ADiscard', True
-    if ops == ['CLOSE']:
-        return 'ANothing', True
-    if ops in (['REPLACE', 'CLOSE'], ['UNLINK', 'CLOSE']):
-        return ('ACommit' if ops[0] == 'REPLACE' else 'ADiscard'), False
-    raise TranslateError(f'{where}: operation sequence {ops} is outside the model')
-
-
-def _exit_facts(fn: ast.FunctionDef) -> dict:
-    ok_ops, ok_out = _run_exit(fn, False, None)
-    ex_ops, _ = _run_exit(fn, True, None)
-    on_ok, cf1 = _action(ok_ops, '__exit__ success path')
-    on_exc, cf2 = _action(ex_ops, '__exit__ exception path')
-    if ok_out == 'raise':
-        raise TranslateError('__exit__ raises on the fault-free success path')
-    cl_ok, _ = _run_exit(fn, False, 'CLOSE')
-    cl_ex, _ = _run_exit(fn, True, 'CLOSE')
-    for ops in (cl_ok, cl_ex):
-        if ops not in (['CLOSE!'], ['CLOSE!', 'UNLINK']):
-            raise TranslateError(f'__exit__ after a failing close performs {ops}: outside the model')
-    close_guard = cl_ok == ['CLOSE!', 'UNLINK'] and cl_ex == ['CLOSE!', 'UNLINK']
-    replace_guard = True
-    rp_paths = {}
-    for exc, base in ((False, ok_ops), (True, ex_ops)):
-        if 'REPLACE' in base:
-            ops, _ = _run_exit(fn, exc, 'REPLACE')
-            rp_paths['exc' if exc else 'ok'] = ops
-            i = ops.index('REPLACE!')
-            rest = ops[i + 1:]
-            if rest not in ([], ['UNLINK']):
-                raise TranslateError(f'__exit__ after a failing replace performs {rest}: outside the model')
-            replace_guard = replace_guard and rest == ['UNLINK']
-    return dict(on_ok=on_ok, on_exc=on_exc, close_first=cf1 and cf2, close_guard=close_guard,
-                replace_guard=replace_guard,
-                paths={'ok': ok_ops, 'exc': ex_ops, 'close_fault_ok': cl_ok, 'close_fault_exc': cl_ex,
-                       'replace_fault': rp_paths})
 
 
 # ------------------------------------------------------------------------------------------- make_tempfile
@@ -300,7 +305,83 @@ def _tempfile_facts(fn: ast.FunctionDef) -> dict:
     if sibling is None:
         raise TranslateError('make_tempfile: no assignment to self._temp_name found')
     excl = all('x' in m and 'w' not in m and 'a' not in m and '+' not in m and retry for m, _, retry in modes)
-    return dict(excl=excl, sibling=bool(sibling), modes=[[m, ln, r] for m, ln, r in modes])
+    return dict(excl=excl, sibling=bool(sibling), modes=[[m, ln, r] for m, ln, r in modes], loop=_loop_facts(fn))
+
+
+def _loop_facts(fn: ast.FunctionDef) -> dict:
+    """The shape of the temp-name loop: `for <i> in count(start)` (unbounded) / `range(..)` (bounded), the name
+    template, what the FileExistsError handler does, where the loop is left, whether the destination itself is
+    skipped.  Facts only; they are judged by named obligations."""
+    def has_open(node: ast.AST) -> bool:
+        return any(isinstance(c, ast.Call) and ((isinstance(c.func, ast.Attribute) and c.func.attr == 'open')
+                                                or (isinstance(c.func, ast.Name) and c.func.id == 'open'))
+                   for c in ast.walk(node))
+    loops = [n for n in ast.walk(fn) if isinstance(n, (ast.For, ast.While)) and has_open(n)]
+    if len(loops) != 1 or not isinstance(loops[0], ast.For) or not isinstance(loops[0].target, ast.Name):
+        raise TranslateError('make_tempfile: expected exactly one `for <name> in ...` loop around the open call')
+    loop = loops[0]
+    if loop.orelse:
+        raise TranslateError('make_tempfile: the temp-name loop has an else clause')
+    var = loop.target.id
+    it = loop.iter
+    start, unbounded = 0, False
+    fname = None
+    if isinstance(it, ast.Call):
+        f = it.func
+        fname = f.attr if isinstance(f, ast.Attribute) else (f.id if isinstance(f, ast.Name) else None)
+    if fname == 'count':
+        args = list(it.args)
+        kw = {k.arg: k.value for k in it.keywords}
+        st = args[0] if args else kw.get('start')
+        step = args[1] if len(args) > 1 else kw.get('step')
+        if st is not None:
+            if not (isinstance(st, ast.Constant) and isinstance(st.value, int) and st.value >= 0):
+                raise TranslateError('make_tempfile: count() start is not a literal natural number')
+            start = st.value
+        unbounded = step is None or (isinstance(step, ast.Constant) and step.value == 1)
+    elif fname == 'range':
+        a = it.args
+        if not all(isinstance(x, ast.Constant) and isinstance(x.value, int) for x in a) or not 1 <= len(a) <= 2:
+            raise TranslateError('make_tempfile: range() bounds are not literals')
+        start = a[0].value if len(a) == 2 else 0
+        unbounded = False
+    else:
+        raise TranslateError(f'make_tempfile: unsupported loop iterator `{ast.unparse(it)}`')
+    # name template: self._temp_name = self.filename.with_name(f'tmp_{<var>}')
+    template_ok = False
+    for n in ast.walk(loop):
+        if isinstance(n, ast.Assign) and len(n.targets) == 1 and _key(n.targets[0]) == 'self._temp_name' \
+                and isinstance(n.value, ast.Call) and len(n.value.args) == 1:
+            a = n.value.args[0]
+            template_ok = (isinstance(a, ast.JoinedStr) and len(a.values) == 2
+                           and isinstance(a.values[0], ast.Constant) and a.values[0].value == 'tmp_'
+                           and isinstance(a.values[1], ast.FormattedValue) and isinstance(a.values[1].value, ast.Name)
+                           and a.values[1].value.id == var and a.values[1].format_spec is None
+                           and a.values[1].conversion == -1)
+    # the destination itself is skipped: if self._temp_name == self.filename: continue
+    skip_dest = False
+    for n in loop.body:
+        if isinstance(n, ast.If) and isinstance(n.test, ast.Compare) and len(n.test.ops) == 1 \
+                and isinstance(n.test.ops[0], ast.Eq) \
+                and {_key(n.test.left), _key(n.test.comparators[0])} == {'self._temp_name', 'self.filename'} \
+                and len(n.body) == 1 and isinstance(n.body[0], ast.Continue) and not n.orelse:
+            skip_dest = True
+    # the try around the open: a FileExistsError handler that only passes/continues; the loop is left by `break`
+    # directly after the open (same try body or its else clause) and nowhere else
+    handler_inert, break_after_open = False, False
+    tries = [n for n in loop.body if isinstance(n, ast.Try) and has_open(n)]
+    if len(tries) == 1:
+        t = tries[0]
+        hs = [h for h in t.handlers if (_handler_names(h, 'make_tempfile') or set()) & {'FileExistsError'}]
+        handler_inert = len(hs) == 1 and len(t.handlers) == 1 and all(
+            isinstance(b, (ast.Pass, ast.Continue)) or (isinstance(b, ast.Expr) and isinstance(b.value, ast.Constant))
+            for b in hs[0].body) and not t.finalbody
+        tail = t.body + t.orelse
+        break_after_open = bool(tail) and isinstance(tail[-1], ast.Break) and not any(
+            isinstance(x, (ast.Break, ast.Return)) for b in tail[:-1] for x in ast.walk(b))
+    other_exits = sum(isinstance(x, (ast.Break, ast.Return)) for x in ast.walk(loop))
+    return dict(start=start, unbounded=unbounded, template_ok=template_ok, skip_dest=skip_dest,
+                handler_inert=handler_inert, break_after_open=break_after_open and other_exits == 1)
 
 
 # ------------------------------------------------------------------------------------------- bsp.py census
@@ -345,20 +426,63 @@ def _bsp_census(tree: ast.Module) -> dict:
                     save = f
     if save is None:
         raise TranslateError('bsp.py: BSP.save not found')
-    withs = []
+    # every `with` inside save: what the context expression can evaluate to.  A plain name is resolved through all the
+    # assignments to it inside save (so `writer = AtomicWriter(..) if .. else open(..)` or an if/else assigning the
+    # name is seen as two constructors).  The generated list is judged by a kernel-checked obligation, not here.
+    assigns: dict[str, list[ast.expr]] = {}
     for node in ast.walk(save):
-        if isinstance(node, ast.With):
+        if isinstance(node, ast.Assign):
+            for t in node.targets:
+                if isinstance(t, ast.Name):
+                    assigns.setdefault(t.id, []).append(node.value)
+        elif isinstance(node, ast.AnnAssign) and isinstance(node.target, ast.Name) and node.value is not None:
+            assigns.setdefault(node.target.id, []).append(node.value)
+
+    def ctor_values(e: ast.expr, depth: int = 0) -> list[ast.expr]:
+        if depth > 4:
+            raise TranslateError('BSP.save: context expression of `with` is defined through too many aliases')
+        if isinstance(e, ast.IfExp):
+            return ctor_values(e.body, depth + 1) + ctor_values(e.orelse, depth + 1)
+        if isinstance(e, ast.Name):
+            if e.id not in assigns:
+                raise TranslateError(f'BSP.save: `with {e.id}`: no assignment to that name inside save')
+            return [v for a in assigns[e.id] for v in ctor_values(a, depth + 1)]
+        return [e]
+
+    def is_atomic_bytes(ce: ast.expr) -> bool:
+        if not (isinstance(ce, ast.Call) and isinstance(ce.func, ast.Name) and ce.func.id == 'AtomicWriter'):
+            return False
+        return any(k.arg == 'is_bytes' and isinstance(k.value, ast.Constant) and k.value.value is True
+                   for k in ce.keywords) or (len(ce.args) >= 2 and isinstance(ce.args[1], ast.Constant)
+                                             and ce.args[1].value is True)
+
+    # names used as output: receivers of .write()/.writelines() and arguments of DeferredWrites(...)
+    out_names: set[str] = set()
+    for node in ast.walk(save):
+        if isinstance(node, ast.Call):
+            if isinstance(node.func, ast.Attribute) and node.func.attr in ('write', 'writelines') \
+                    and isinstance(node.func.value, ast.Name):
+                out_names.add(node.func.value.id)
+            if isinstance(node.func, ast.Name) and node.func.id == 'DeferredWrites':
+                out_names |= {a.id for a in node.args if isinstance(a, ast.Name)}
+    withs = []          # (bound name, line) of every `with ... as name` whose name is used as output
+    ctors: list[list] = []     # [unparsed constructor, line, is AtomicWriter(..., is_bytes=True)]
+    for node in ast.walk(save):
+        if isinstance(node, (ast.With, ast.AsyncWith)):
             for item in node.items:
-                ce = item.context_expr
-                if isinstance(ce, ast.Call) and isinstance(ce.func, ast.Name) and ce.func.id == 'AtomicWriter':
-                    if not isinstance(item.optional_vars, ast.Name):
-                        raise TranslateError('BSP.save: AtomicWriter handle is not bound to a simple name')
-                    bytes_mode = any(k.arg == 'is_bytes' and isinstance(k.value, ast.Constant) and k.value.value is True
-                                     for k in ce.keywords) or (len(ce.args) >= 2 and isinstance(ce.args[1], ast.Constant) and ce.args[1].value is True)
-                    withs.append((item.optional_vars.id, node.lineno, bytes_mode))
-    if len(withs) != 1:
-        raise TranslateError(f'BSP.save: expected exactly one `with AtomicWriter(...) as name`, found {len(withs)}')
-    handle = withs[0][0]
+                if item.optional_vars is None:
+                    continue        # cannot be written to; a direct open() for writing is in the module-wide census
+                if not isinstance(item.optional_vars, ast.Name):
+                    raise TranslateError('BSP.save: `with ... as <target>`: target is not a simple name')
+                if item.optional_vars.id not in out_names:
+                    continue
+                for v in ctor_values(item.context_expr):
+                    ctors.append([ast.unparse(v)[:60].replace('"', "'"), node.lineno, is_atomic_bytes(v)])
+                withs.append((item.optional_vars.id, node.lineno))
+    if len({w[0] for w in withs}) > 1:
+        raise TranslateError(f'BSP.save: several different `with ... as name` output handles: {withs}')
+    handle = withs[0][0] if withs else '<none>'
+    handle_line = withs[0][1] if withs else 0
     locals_ok = {handle: 'handle'}
     for node in ast.walk(save):
         if isinstance(node, ast.Assign) and len(node.targets) == 1 and isinstance(node.targets[0], ast.Name) \
@@ -375,7 +499,8 @@ def _bsp_census(tree: ast.Module) -> dict:
             r = node.func.value
             kind = locals_ok.get(r.id) if isinstance(r, ast.Name) else None
             writes.append([ast.unparse(r), node.lineno, kind or 'unknown'])
-    return dict(fs_sites=fs_sites, handle=handle, handle_line=withs[0][1], bytes_mode=withs[0][2], writes=writes,
+    return dict(fs_sites=fs_sites, handle=handle, handle_line=handle_line, ctors=ctors,
+                bytes_mode=bool(ctors) and all(c[2] for c in ctors), writes=writes,
                 save_digest=ast_digest(save))
 
 
@@ -390,7 +515,7 @@ def translate() -> tuple[str, dict]:
     for need in ('make_tempfile', '__enter__', '__exit__'):
         if need not in fns:
             raise TranslateError(f'AtomicWriter.{need} not found')
-    ex = _exit_facts(fns['__exit__'])
+    prog, slot_names = _exit_prog(fns['__exit__'])
     tf = _tempfile_facts(fns['make_tempfile'])
     # __enter__ must create the temp file and hand out the temp handle
     ent_src = [ast.unparse(s) for s in fns['__enter__'].body if not (isinstance(s, ast.Expr) and isinstance(s.value, ast.Constant))]
@@ -402,16 +527,24 @@ def translate() -> tuple[str, dict]:
     writes_ok = all(w[2] in ('handle', 'bytesio', 'deferred') for w in bsp['writes'])
     lines = [
         '(* GENERATED by translate/c12_atomic.py from src/srctools/__init__.py (AtomicWriter) and bsp.py. Do not edit. *)',
-        'From Coq Require Import List String.', 'From SV Require Import SM.AtomicWriter.', 'Import ListNotations.',
+        'From Coq Require Import List String.', 'From SV Require Import SM.AtomicWriter SM.AtomicExit.', 'Import ListNotations.',
         'Open Scope string_scope.',
-        'Definition aw_cfg : cfg := {|',
-        f'  c_excl := {b(tf["excl"])};',
-        f'  c_close_guard := {b(ex["close_guard"])};',
-        f'  c_replace_guard := {b(ex["replace_guard"])};',
-        f'  c_on_ok := {ex["on_ok"]};',
-        f'  c_on_exc := {ex["on_exc"]} |}}.',
-        '(* the temp handle is closed before the temp name is replaced/unlinked *)',
-        f'Definition aw_close_first : bool := {b(ex["close_first"])}.',
+        '(* AtomicWriter.__exit__, statement by statement (slots: ' + ', '.join(f'{k}={v}' for k, v in slot_names.items()) + ') *)',
+        f'Definition aw_exit_prog : xstmt :=\n  {prog}.',
+        '(* make_tempfile: every open mode is exclusive-create and FileExistsError is retried in the loop *)',
+        f'Definition aw_excl : bool := {b(tf["excl"])}.',
+        'Definition aw_proto : xproto := proto_of_prog aw_excl aw_exit_prog.',
+        '(* the temp-name loop: first index, unbounded iterator (itertools.count), name template tmp_<i>, the',
+        '   FileExistsError handler only passes, the loop is left only by the break after a successful open, the',
+        '   destination itself is never used as its own temp file *)',
+        f'Definition aw_loop_start : nat := {tf["loop"]["start"]}.',
+        f'Definition aw_loop_unbounded : bool := {b(tf["loop"]["unbounded"])}.',
+        f'Definition aw_loop_template_ok : bool := {b(tf["loop"]["template_ok"])}.',
+        f'Definition aw_loop_handler_inert : bool := {b(tf["loop"]["handler_inert"])}.',
+        f'Definition aw_loop_break_after_open : bool := {b(tf["loop"]["break_after_open"])}.',
+        f'Definition aw_loop_skips_destination : bool := {b(tf["loop"]["skip_dest"])}.',
+        '(* the five flags of SM/AtomicWriter.v, read off the decision trees of the program (in the kernel) *)',
+        'Definition aw_cfg : cfg := derive_cfg aw_proto.',
         '(* the temp name is a sibling of the destination (filename.with_name) *)',
         f'Definition aw_tmp_sibling : bool := {b(tf["sibling"])}.',
         '(* direct file modifications anywhere in bsp.py (open for writing, os.replace, ...) *)',
@@ -420,10 +553,13 @@ def translate() -> tuple[str, dict]:
         'Definition bsp_save_writes : list (string * bool) := [',
         ';\n'.join(f'  ("{r}@{ln}", {b(k != "unknown")})' for r, ln, k in bsp['writes']),
         '].',
+        '(* what the context expression of every `with` in BSP.save can be: (constructor, is AtomicWriter(.., is_bytes=True)) *)',
+        'Definition bsp_save_with_ctors : list (string * bool) := [' + '; '.join(
+            f'("{c}@{ln}", {b(ok)})' for c, ln, ok in bsp['ctors']) + '].',
         f'Definition bsp_save_handle_is_bytes : bool := {b(bsp["bytes_mode"])}.',
         '',
     ]
-    side = dict(exit=ex, tempfile=tf, bsp={k: v for k, v in bsp.items()},
+    side = dict(exit_prog=prog, exit_slots=slot_names, tempfile=tf, bsp={k: v for k, v in bsp.items()},
                 digests={n: ast_digest(f) for n, f in fns.items()}, writes_ok=writes_ok)
     return '\n'.join(lines), side
 
